@@ -73,6 +73,10 @@ def build_harness(profile="release", crate=HARNESS):
     return binary(profile, crate)
 
 
+def _unused():
+    pass
+
+
 def binary(profile="release", crate=HARNESS, name="drive"):
     return os.path.join(crate, "target", profile, name)
 
